@@ -1,5 +1,7 @@
 (** C07 — Cache view reflects its own pending operations (read-your-writes). Statements only. *)
-From GC Require Import Common.Base Model.Paths Model.Fs Model.Cache Proofs.Fs Proofs.Cache.
+From Coq Require Import Permutation.
+From GC Require Import Common.Base Model.Paths Model.Fs Model.Views Model.Cache Model.ViewsCache Model.CacheRef
+  Proofs.Fs Proofs.Clean Proofs.Views Proofs.Cache Proofs.CacheFrame Proofs.C07More.
 
 (** The tree seen through the cache is a well-formed plain tree whose lookup is: the buffer
     first, otherwise the remote unless the path or an ancestor was removed. *)
@@ -52,4 +54,192 @@ Example C07_ex :
   let c := run_cache (new_cache r) [COp (ORemove [102]); COp (OMkdirAll [100])] in
   snd (cache_step c (COp (OIsExist [102]))) = RBool false /\
   snd (cache_step c (COp (OReadDir []))) = RList [([100], true)] /\ cR c = r.
+Proof. vm_compute. repeat split. Qed.
+
+(** * Proof audit: the statement at full strength
+
+    [ref_step] / [ref_vstep] (Model/CacheRef.v) is the REFERENCE of the property: the operations
+    applied directly to a plain tree - no buffer, no tombstones, no remote.  [out_sim] is equality
+    of answers up to the order of a listing.
+
+    One step, any reachable state ([Inv c], see C06_invariant), any of the 16 operations with ANY
+    raw arguments, Commit and a failed Commit: the cache answers what the reference answers on the
+    tree [cview c] (= the remote with the pending operations applied, = what Commit would make
+    the remote, C06_main), and the view afterwards is the tree the reference leaves - for
+    successful AND refused operations, copies (file and directory, merging, failing half-way)
+    included.  Supersedes C07_reads / C07_written_is_visible / C07_removed_is_invisible, which
+    state single clauses of it under success hypotheses. *)
+Theorem C07_step_as_plain_tree : forall c co, Inv c ->
+  let c' := fst (cache_step c co) in
+  let t' := fst (ref_step (cview c) co) in
+  out_sim (snd (cache_step c co)) (snd (ref_step (cview c) co)) /\
+  Inv c' /\ WF t' /\ forall q, lookup t' q = vlookup c' q.
+Proof.
+  intros c co I. destruct (cache_step_sim c co I) as [A S]. cbv zeta.
+  split; [exact A|]. split; [exact (sim_I _ _ S)|]. split; [exact (sim_W _ _ S)|exact (sim_L _ _ S)].
+Qed.
+Print Assumptions C07_step_as_plain_tree.
+
+(** The same for operations issued through a child view of the cache (Cache.Filespace(p) =
+    fshelper.SubFS over the cache, any base string), mutating ones included. *)
+Theorem C07_step_through_child_view : forall c v, Inv c ->
+  let c' := fst (vcache_step c v) in
+  let t' := fst (ref_vstep (cview c) v) in
+  out_sim (snd (vcache_step c v)) (snd (ref_vstep (cview c) v)) /\
+  Inv c' /\ WF t' /\ forall q, lookup t' q = vlookup c' q.
+Proof.
+  intros c v I. destruct (vcache_step_sim c v I) as [A S]. cbv zeta.
+  split; [exact A|]. split; [exact (sim_I _ _ S)|]. split; [exact (sim_W _ _ S)|exact (sim_L _ _ S)].
+Qed.
+Print Assumptions C07_step_through_child_view.
+
+(** All initial remote trees, all interleavings: EVERY history of operations on the cache and
+    through child views of it (any base strings), with Commits and failed Commits anywhere, is a
+    run of the plain-tree reference started from the initial remote tree - answer by answer - and
+    what is finally seen through the cache is the reference's final tree.  ([ref_run] may change
+    the creation order of the reference's association list between two steps, never a binding: a
+    plain tree has no order.) *)
+Theorem C07_history_refines_plain_tree : forall r l, WF r ->
+  exists outs t, ref_run r l outs t /\
+    Forall2 out_sim (cache_outs (new_cache r) l) outs /\
+    WF t /\ forall q, lookup t q = vlookup (run_vcache (new_cache r) l) q.
+Proof. exact history_refines_plain_tree. Qed.
+Print Assumptions C07_history_refines_plain_tree.
+
+(** ... and at every point of every such history the next operation answers and acts as the
+    reference does on the tree seen at that point (no hypothesis on the state is left). *)
+Theorem C07_reachable_step : forall r l v, WF r ->
+  let c := run_vcache (new_cache r) l in
+  out_sim (snd (vcache_step c v)) (snd (ref_vstep (cview c) v)) /\
+  forall q, lookup (fst (ref_vstep (cview c) v)) q = vlookup (fst (vcache_step c v)) q.
+Proof. exact reachable_step_sim. Qed.
+Print Assumptions C07_reachable_step.
+
+(** Listings, totally: a listing through the cache succeeds exactly on the visible directories
+    (a created directory lists, a removed one does not, a file does not) and is then the listing
+    of the tree as a multiset.  Supersedes C07_listing, which assumes that the listing succeeded. *)
+Theorem C07_listing_total : forall c p, Inv c ->
+  (vlookup c p = Some D ->
+     exists l, v_read_dir c p = Some l /\ Permutation l (children (cview c) p)) /\
+  (vlookup c p <> Some D -> v_read_dir c p = None).
+Proof. exact listing_total. Qed.
+Print Assumptions C07_listing_total.
+
+(** A read whose argument the cache cannot normalise (it climbs above the root) answers false /
+    an error and reads nothing (the case C07_reads leaves out). *)
+Theorem C07_reads_climbing : forall c o s,
+  read_arg o = Some s -> cnorm s = None -> cache_step c (COp o) = (c, fail_out o).
+Proof. exact cache_reads_climbing. Qed.
+Print Assumptions C07_reads_climbing.
+
+(** Child views at path level: a read through the view with base string [base] (any string ending
+    in a slash; [cred base = Some b] is where the cache's cleaning puts the view root) of an
+    argument that reduces to [r] is the tree's answer at [b ++ r]; a listing likewise; an
+    argument the view refuses, or a view whose base climbs out, answers false / an error. *)
+Theorem C07_child_view_reads : forall c base b o s r,
+  base_ok base -> cred base = Some b -> read_arg o = Some s -> reduce s = Some r ->
+  sub_cache_step base c o = (c, tree_read (cview c) o (b ++ r)).
+Proof. exact sub_cache_reads. Qed.
+Print Assumptions C07_child_view_reads.
+
+Theorem C07_child_view_listing : forall c base b s r,
+  base_ok base -> cred base = Some b -> reduce s = Some r ->
+  sub_cache_step base c (OReadDir s) =
+  (c, match v_read_dir c (b ++ r) with Some l => RList l | None => RErr end).
+Proof. exact sub_cache_listing. Qed.
+Print Assumptions C07_child_view_listing.
+
+Theorem C07_child_view_refused : forall c base o s,
+  base_ok base -> (read_arg o = Some s \/ o = OReadDir s) -> (reduce s = None \/ cred base = None) ->
+  sub_cache_step base c o = (c, fail_out o).
+Proof. exact sub_cache_reads_refused. Qed.
+Print Assumptions C07_child_view_refused.
+
+(** Copy sources: the entries a directory copy re-creates are exactly the nodes visible below the
+    source (each once, pending writes included, removed ones excluded); a file copy writes the
+    bytes visible at the source; an invisible (removed) source is an error and changes nothing.
+    (What the copy then DOES is C07_step_as_plain_tree.) *)
+Theorem C07_copy_source_is_view : forall c src, Inv c ->
+  NoDup (map fst (subtree_moved (cview c) src [])) /\
+  forall rel e, In (rel, e) (subtree_moved (cview c) src []) <-> rel <> [] /\ vlookup c (src ++ rel) = Some e.
+Proof. exact copy_source_is_view. Qed.
+Print Assumptions C07_copy_source_is_view.
+
+Theorem C07_copy_file_reads_view : forall c src dst,
+  src <> [] -> is_prefix src dst = false ->
+  (forall data, vlookup c src = Some (F data) -> c_copy c src dst = c_write c dst data) /\
+  (vlookup c src = None -> c_copy c src dst = (c, RErr)).
+Proof. exact copy_file_reads_view. Qed.
+Print Assumptions C07_copy_file_reads_view.
+
+(** ** Non-vacuity of the new implications.
+    Remote: a/ , a/x = 1 , b = 2.  Pending: remove -r a ; mkdir a/d ; write a/y = 3 ; remove b. *)
+Definition ex_r : fs := [([[97]], D); ([[97]; [120]], F [49]); ([[98]], F [50])].
+Definition ex_l : list cop :=
+  [COp (ORemoveAll [97]); COp (OMkdirAll [97;47;100]); COp (OWriteFile [97;47;121] [51]); COp (ORemove [98])].
+Definition ex_c : cache := run_cache (new_cache ex_r) ex_l.
+
+Example C07_ex_WF : WF ex_r.
+Proof. apply wf_WF. vm_compute. reflexivity. Qed.
+
+(* [Inv] holds of a state with a non-empty buffer and two tombstones *)
+Example C07_ex_Inv : Inv ex_c /\ cB ex_c <> [] /\ length (cT ex_c) = 2%nat.
+Proof. split; [apply run_cache_Inv, Inv_new, C07_ex_WF|]. vm_compute. split; [discriminate|reflexivity]. Qed.
+
+(* step: a directory copy of the pending tree a/ onto c, seen by the cache and by the reference *)
+Example C07_ex_step :
+  snd (cache_step ex_c (COp (OCopy [97] [99]))) = RUnit /\
+  snd (ref_step (cview ex_c) (COp (OCopy [97] [99]))) = RUnit /\
+  vlookup (fst (cache_step ex_c (COp (OCopy [97] [99])))) [[99]; [121]] = Some (F [51]) /\
+  vlookup (fst (cache_step ex_c (COp (OCopy [97] [99])))) [[99]; [120]] = None.
+Proof. vm_compute. repeat split. Qed.
+
+(* history with a child view (base a/), a Commit in the middle and a refused write *)
+Example C07_ex_history :
+  cache_outs (new_cache ex_r)
+    (map VDirect ex_l ++ [VSub [97;47] (OWriteFile [122] [52]); VDirect CCommit; VSub [97;47] (OReadDir []);
+                          VDirect (COp (OWriteFile [97;47;122;47;113] [53]))]) =
+  [RUnit; RUnit; RUnit; RUnit; RUnit; RUnit; RList [([100], true); ([121], false); ([122], false)]; RErr].
+Proof. vm_compute. reflexivity. Qed.
+
+(* listings: the re-created directory lists, the removed file does not, a climbing path neither *)
+Example C07_ex_listing :
+  vlookup ex_c [[97]] = Some D /\ v_read_dir ex_c [[97]] = Some [([100], true); ([121], false)] /\
+  vlookup ex_c [[98]] <> Some D /\ v_read_dir ex_c [[98]] = None /\
+  read_arg (OIsExist [46;46;47;97]) = Some [46;46;47;97] /\ cnorm [46;46;47;97] = None.
+Proof. vm_compute. repeat split; discriminate. Qed.
+
+(* child views: base a/ lands at [a]; the base ../x/ climbs out; the argument ../y is refused *)
+Example C07_ex_child_view :
+  base_ok [97;47] /\ cred [97;47] = Some [[97]] /\ reduce [121] = Some [[121]] /\
+  sub_cache_step [97;47] ex_c (OReadFile [121]) = (ex_c, RData [51]) /\
+  base_ok [46;46;47;120;47] /\ cred [46;46;47;120;47] = None /\ reduce [46;46;47;121] = None.
+Proof.
+  split; [exists [97]; reflexivity|]. split; [vm_compute; reflexivity|]. split; [vm_compute; reflexivity|].
+  split; [vm_compute; reflexivity|]. split; [exists [46;46;47;120]; reflexivity|]. split; vm_compute; reflexivity.
+Qed.
+
+(* copy sources: the pending file a/y is a source, the removed a/x is not *)
+Example C07_ex_copy_source :
+  subtree_moved (cview ex_c) [[97]] [] = [([[100]], D); ([[121]], F [51])] /\
+  vlookup ex_c [[97]; [121]] = Some (F [51]) /\ vlookup ex_c [[97]; [120]] = None /\
+  [[97]; [121]] <> [] /\ is_prefix [[97]; [121]] [[99]] = false.
+Proof. vm_compute. repeat split; discriminate. Qed.
+
+(** A limit of the model that the audit found (not a theorem about the code): a directory copy
+    whose SOURCE LIES INSIDE ITS DESTINATION - Copy(a/b, a) - writes into the tree it is reading.
+    Model and reference copy the entries visible when the copy starts: below, a/b/b/c/z is copied
+    to a/b/c/z and a/b/c/k to a/c/k, and there is no a/c/z.  fscache runs the walk of the source
+    (fsloop producer) concurrently with the writes (consumer, channel capacity 1000): for a small
+    source it behaves like this, but with more than 1000 entries between the two sub-directories
+    the walk reaches a/b/c after a/b/c/z was written and a/c/z appears as well (observed 20 runs
+    out of 20 on the implementation with 2500 filler files; schedule dependent in general).  The
+    correspondence check only generates small trees. *)
+Example C07_ex_copy_into_ancestor :
+  let r := [([[97]], D); ([[97];[98]], D); ([[97];[98];[98]], D); ([[97];[98];[98];[99]], D);
+            ([[97];[98];[98];[99];[122]], F [90]); ([[97];[98];[99]], D); ([[97];[98];[99];[107]], F [75])] in
+  let c := fst (cache_step (new_cache r) (COp (OCopy [97;47;98] [97]))) in
+  snd (cache_step (new_cache r) (COp (OCopy [97;47;98] [97]))) = RUnit /\
+  vlookup c [[97];[98];[99];[122]] = Some (F [90]) /\ vlookup c [[97];[99];[107]] = Some (F [75]) /\
+  vlookup c [[97];[99];[122]] = None.
 Proof. vm_compute. repeat split. Qed.
